@@ -21,6 +21,8 @@ var mtAmounts = []uint64{1, 2, 7, 1000, 1 << 32, 1<<63 - 1, 1 << 63, 1<<64 - 2, 
 func init() {
 	register(&core.Profile{Name: "c05-mt-conservation", Property: "C05", Weight: 3, Run: func(c *core.Ctx) { runC05(c, false) },
 		Doc: "2-4 chains; native issue/mint of supplies up to 2^64-1, partial transfers away and back by several holders, several ids per class, amounts from the boundary set, zero-amount and bad-receiver sends (error acks), holder burns; honest relayer with duplication; escrow and supply equations (math/big) after every tx"})
+	register(&core.Profile{Name: "c05-lookalike-chains", Property: "C05", Weight: 1, Run: withLookalikeChains(func(c *core.Ctx) { runC05(c, false) }),
+		Doc: "c05-mt-conservation in a world whose chain names are suffixes / prefixes of one another (irishub-mainnet, hub-mainnet, sub-irishub-mainnet, hub-mainnet.x)"})
 	register(&core.Profile{Name: "c05-mt-conservation-crash", Property: "C05", Weight: 1, Fault: true, Run: func(c *core.Ctx) { runC05(c, true) },
 		Doc: "same with crash/restart between steps"})
 }
